@@ -7,6 +7,7 @@ package main
 
 import (
 	"fmt"
+	"math/big"
 	"testing"
 
 	"pgregory.net/rapid"
@@ -352,6 +353,77 @@ func checkC02(c c02Case, ctx *vCtx) *vFailure {
 			return fl
 		}
 	}
+	// single-element register rows against the model: reg -s X (one row per day that has X), reg -s X -g (per book food)
+	if len(c.S.Basics) > 0 {
+		x := c.S.Basics[0]
+		res := vModelResolve(c.S.Book.Parsed())
+		type sx struct {
+			date     string
+			pos, neg vVal
+		}
+		var wantRows []sx
+		byFood := map[string]vVal{}
+		for di, d := range days {
+			_ = di
+			row := sx{date: d.Head, pos: vValZero(), neg: vValZero()}
+			has := false
+			for _, fd := range d.Foods {
+				_, isRecipe := res.Elems[fd.Name]
+				for _, in := range fd.Ingrs {
+					if in.Name != x {
+						continue
+					}
+					has = true
+					if in.V.V.Sign() < 0 {
+						row.neg = row.neg.Add(in.V)
+					} else {
+						row.pos = row.pos.Add(in.V)
+					}
+					if isRecipe {
+						cur, ok := byFood[fd.Name]
+						if !ok {
+							cur = vValZero()
+						}
+						byFood[fd.Name] = cur.Add(in.V)
+					}
+				}
+			}
+			if has {
+				wantRows = append(wantRows, row)
+			}
+		}
+		r := vRunApp(vInvocation{Args: argsFor("reg", "-s", x)})
+		ctx.Run(1)
+		if r.Failed {
+			return vFailf("reg -s %q failed: %s", x, r)
+		}
+		got := vReadSingle(r.Stdout, x)
+		if len(got) != len(wantRows) {
+			return vFailf("reg -s %q shows %d rows, expected %d (one per day that has the element)\n%s", x, len(got), len(wantRows), vTrunc(r.Stdout, 800))
+		}
+		for i, w := range wantRows {
+			g := got[i]
+			negShown := vVal{V: new(big.Rat).Neg(w.neg.V), Mag: w.neg.Mag}
+			if g.Date != w.date || !vValClose(g.Pos, w.pos, 2) || !vValClose(g.Neg, negShown, 2) || !vValClose(g.Sum, w.pos.Add(w.neg), 2) {
+				return vFailf("reg -s %q row %d: got %v, expected (%s, %s, %s, =%s)", x, i, g, w.date, w.pos, negShown, w.pos.Add(w.neg))
+			}
+		}
+		rg := vRunApp(vInvocation{Args: argsFor("reg", "-s", x, "-g")})
+		ctx.Run(1)
+		if rg.Failed {
+			return vFailf("reg -s %q -g failed: %s", x, rg)
+		}
+		gotG := vReadValName(rg.Stdout)
+		names := vSortedKeys(byFood)
+		if len(gotG) != len(names) {
+			return vFailf("reg -s %q -g shows %d foods, expected %d %q\n%s", x, len(gotG), len(names), names, vTrunc(rg.Stdout, 800))
+		}
+		for i, nm := range names {
+			if gotG[i].Name != nm || !vValClose(gotG[i].Val, byFood[nm], 2) {
+				return vFailf("reg -s %q -g row %d: got (%s, %q), expected (%s, %q)", x, i, gotG[i].Val, gotG[i].Name, byFood[nm], nm)
+			}
+		}
+	}
 	// summary DATE for each distinct date of the log
 	seen := map[string]bool{}
 	for _, d := range days {
@@ -407,7 +479,7 @@ func init() { vRegister("C02", "c02.random", checkC02) }
 
 func TestVerifC02Random(t *testing.T) {
 	vRapid(t, "C02", "c02.random",
-		"random books (depth <=3, tame names, exact or decimal numeric mode) and logs (1-5 days, 0-6 entries, repeated foods, negative/zero quantities, recipes, basic elements logged directly, unknown foods); reg in 3 reporter variants + summary per date read back and compared with the rational day model; 1/40 through the real binary; non-trivial = a day with >=2 foods incl. a recipe and (an element with both signs from different foods, or a repeated food, or an element both logged directly and via a recipe)",
+		"random books (depth <=3, tame names, exact or decimal numeric mode) and logs (1-5 days, 0-6 entries, repeated foods, negative/zero quantities, recipes, basic elements logged directly, unknown foods); reg in 3 reporter variants, reg -s X, reg -s X -g and summary per date read back and compared with the rational day model; 1/40 through the real binary; non-trivial = a day with >=2 foods incl. a recipe and (an element with both signs from different foods, or a repeated food, or an element both logged directly and via a recipe)",
 		vBudget(4800, 96000), genC02, checkC02)
 }
 
